@@ -7,7 +7,8 @@
 (2) the property predicate is evaluated on the implementation with an independent pure-python
     from-scratch evaluator;
 (3) real-tensor oracle: histories on real model states, every read compared bitwise with a
-    from-scratch evaluation on a fresh State (extreme / non-finite proposals included).
+    from-scratch evaluation on a fresh State (extreme / non-finite proposals included);
+(4) read spy: the reads that fit / personalize / estimate themselves perform on real models, same comparison.
 """
 from __future__ import annotations
 
@@ -28,7 +29,9 @@ LEAN = dict(
         "the executable instance uses integer matrices mod 1000003",
         "aliasing between a state, its clones and by-reference forks is not expressible in the pure model; it is covered by interleaving "
         "operations on clones in the correspondence and by the real-tensor oracle",
-        "determinism of torch recomputation (same inputs, same shapes -> same bits on CPU) is assumed by the real-tensor oracle",
+        "determinism of torch recomputation (same inputs, same shapes, same memory layout -> same bits on CPU) is assumed by the "
+        "real-tensor oracle and the read spy; once an independent value was held in a non-contiguous layout, a read that is not bitwise "
+        "equal is accepted within 16 float32 ulp (state_common.LayoutEnvelope) and counted",
     ],
     assumptions=["partial reverts are generated only when the documented precondition holds (checked on the real state's cache pattern)"],
 )
@@ -56,7 +59,7 @@ def run_histories(chk, env, shadows, n_hist, length, maker):
         except Exception as e:  # noqa  — every call into leaspy is wrapped (Runner.call): this is a harness bug
             raise core.Infra(f"harness error while driving a history: {type(e).__name__}: {e}")
         line = rn.request_line()
-        cj = {"kind": "shadow", "family": tag, "line": line}
+        cj = {"kind": "shadow", "family": tag, "line": line, "picks": rn.picks}
         for f in rn.fails[:3]:
             chk.impl_failure(cj, f)
         lines.append(line)
@@ -78,46 +81,124 @@ def run_histories(chk, env, shadows, n_hist, length, maker):
 
 def model_shadows(chk, env):
     out = []
-    for name, kw in MODEL_KINDS:
+    # the first table always; of the other kinds (no sources, one source, binary outcomes, three clusters, joint with sources)
+    # all in the thorough tier, two per quick run
+    more = sc.REAL_KINDS_MORE[1:] if chk.tier == "thorough" else chk.rng.sample(sc.REAL_KINDS_MORE[1:], 2)
+    for name, kw in MODEL_KINDS + more:
         try:
             sh, exact = sc.shadow_of_model(env, name, kw, nind=3, d=chk.rng.choice([1, 2]))
             out.append((f"model-{name}" + ("" if exact else "-types"), sh))
+            chk.tag("shadow_model_kinds", f"{name} {kw}", 1)
         except Exception as e:  # noqa
             chk.note(f"shadow graph of model kind {name} {kw} unavailable: {type(e).__name__}: {e}")
     return out
 
 
-def real_oracle(chk, env, steps):
-    for name, kw in sc.REAL_KINDS:
+def run_one_real(chk, env, name, kw, cohort, key, steps, ambient):
+    import random
+    torch = env["torch"]
+    prev = torch.get_default_dtype()
+    try:
+        if ambient:
+            torch.set_default_dtype(getattr(torch, ambient))
         try:
-            orc = sc.RealOracle(env, name, kw, chk.rng)
+            orc = sc.RealOracle(env, name, kw, random.Random(key), cohort)
         except Exception as e:  # noqa
-            chk.note(f"real-tensor oracle: model kind {name} {kw} unavailable: {type(e).__name__}: {e}")
-            continue
+            chk.note(f"real-tensor oracle: model kind {name} {kw} ({cohort}, {ambient}) unavailable: {type(e).__name__}: {e}")
+            return None
         orc.run(steps)
-        cj = {"kind": "real", "model": name, "kw": kw, "seed": chk.seed, "steps": steps, "log": orc.log[-5:]}
+        return orc
+    finally:
+        torch.set_default_dtype(prev)
+
+
+def real_oracle(chk, env, steps):
+    rng = chk.rng
+    if chk.tier == "thorough":
+        plan = [(n, kw, co) for n, kw in sc.REAL_KINDS + sc.REAL_KINDS_MORE for co in ("full", "one", "two-reversed", "missing")]
+    else:
+        # every kind of the first table on its whole cohort or on a reduced / altered one, plus a sample of the other kinds
+        plan = [(n, kw, rng.choice(sc.COHORTS)) for n, kw in sc.REAL_KINDS]
+        plan += [(n, kw, rng.choice(sc.COHORTS)) for n, kw in rng.sample(sc.REAL_KINDS_MORE, 4)]
+    import random
+    for i, (name, kw, cohort) in enumerate(plan):
+        key = f"{PROP}-real:{chk.seed}:{chk.tier}:{i}:{name}:{cohort}"      # own stream per oracle: a replay re-creates exactly this run
+        # process state: a third of the kinds without sources live (construction included) under another ambient default dtype,
+        # as left behind by earlier code of the caller (the kinds with sources can not be initialised under it at all)
+        ambient = "float64" if (kw.get("source_dimension", 0) == 0 and rng.random() < 0.35) else None
+        orc = run_one_real(chk, env, name, kw, cohort, key, steps, ambient)
+        if orc is None:
+            continue
+        cj = {"kind": "real", "model": name, "kw": kw, "cohort": cohort, "seed": chk.seed, "steps": steps, "rng_key": key,
+              "ambient": ambient, "log": orc.log[-5:]}
         for f in orc.fails[:3]:
             chk.impl_failure(cj, f)
-        chk.case(("real", name, str(kw), chk.seed), nontrivial=True, tags={"family": "real-" + name})
+        chk.case(("real", name, str(kw), cohort, chk.seed), nontrivial=True,
+                 tags={"family": "real-" + name, "cohort": cohort, "ambient_default_dtype": ambient or "float32"})
         chk.tag("real_reads", name, orc.reads)
+        if orc.envelope_reads:
+            chk.tag("real_reads_within_layout_envelope", name, orc.envelope_reads)
+        for k, v in orc.kinds_done.items():
+            chk.tag("real_steps", k, v)
+
+
+def api_spy(chk, env):
+    """(4) the reads the public API itself performs - fit, personalisation, estimation - checked by a call-through wrapper"""
+    import random
+    kinds = sc.REAL_KINDS + [k for k in sc.REAL_KINDS_MORE if k[1].get("n_clusters") != 3]   # (3 clusters: not initialisable here)
+    if chk.tier == "thorough":
+        plan = [(n, kw, co, 3) for n, kw in kinds for co in ("full", "missing", "two-reversed")]
+    else:
+        plan = [(n, kw, chk.rng.choice(["full", "full", "missing", "two-reversed"]), 5) for n, kw in chk.rng.sample(kinds, 6)]
+    for i, (name, kw, cohort, stride) in enumerate(plan):
+        key = f"{PROP}-api:{chk.seed}:{chk.tier}:{i}:{name}:{cohort}"
+        run_api_case(chk, env, {"kind": "api", "model": name, "kw": kw, "cohort": cohort, "stride": stride, "rng_key": key, "seed": chk.seed})
+
+
+def run_api_case(chk, env, cj):
+    import random
+    try:
+        fails, stats = sc.api_read_spy(env, random.Random(cj["rng_key"]), cj["model"], cj["kw"], cj["cohort"], cj["stride"])
+    except Exception as e:  # noqa
+        chk.note(f"API read spy: {cj['model']} {cj['kw']} ({cj['cohort']}) unavailable: {type(e).__name__}: {e}")
+        return
+    for f in fails[:3]:
+        chk.impl_failure(cj, f)
+    chk.case(("api", cj["model"], str(cj["kw"]), cj["cohort"], cj["seed"]), nontrivial=stats["checked"] > 0,
+             tags={"family": "api-" + cj["model"]})
+    chk.tag("api_reads", "seen", stats["reads"])
+    chk.tag("api_reads", "checked", stats["checked"])
+    chk.tag("api_reads", "within_layout_envelope", stats["within_layout_envelope"])
+    for k in ("did_not_converge", "aborted"):
+        if k in stats:
+            chk.tag("api_runs_cut_short", f"{cj['model']}: {stats[k]}"[:160], 1)
 
 
 def run(chk: core.Check):
     env = sc.imports()
-    chk.rule = ("random histories (10-60 ops over set / set None / put(indices, accumulate) / read / is-set / revert / partial revert / "
-                "clone(+-flags) / fork-mode switches / precompute / clear, on a state and up to 3 clones) on random toy DAGs "
-                "(3-12 nodes + forced children) and on shadow graphs with the structure of every shipped model kind; plus real-tensor "
-                "histories on real model states. Non-trivial = the history contains at least one (partial) revert and two reads; "
-                "distinct by the full request line.")
+    chk.rule = ("random histories (10-60 ops over set [item / put / Mapping.update; a value, the same numbers again, None] / "
+                "put(indices as lists, arrays, tensors, plain integers, a partial row index; accumulate or not) / read [item, "
+                "get_tensor_value(s), list export, Mapping.get with a default, setdefault, items()] / is-set / are-set / `in` / revert / "
+                "partial revert [mask dtypes bool..float32; layouts flat, strided, column, full shape, 0-d; right and left "
+                "broadcasting] / clone(+-flags) / deepcopy / fork-mode switches by attribute and by the auto_fork context manager "
+                "(also left by an exception) / precompute / clear / to_device / refused deletion / names that are not variables, "
+                "on a state and up to 3 clones) on random toy DAGs (3-12 nodes + forced children, 1-6 individuals, 1-3 columns) and on "
+                "shadow graphs with the structure of every shipped model kind (with / without sources, one source, scalar / diagonal / "
+                "binary noise, 2-3 clusters, joint with sources); real-tensor histories on real model states (11 further step kinds "
+                "through the model's and the state's helper entry points; cohorts of 1, 2, 5 or 17 individuals, values missing inside "
+                "visits; a third of the source-free kinds under an ambient float64 default dtype); the reads fit / personalize / "
+                "estimate perform themselves (call-through spy). Non-trivial = the history contains at least one (partial) revert and "
+                "two reads; distinct by the full request line / (kind, cohort, seed).")
     for c in core.load_corpus(PROP):
         if c.get("kind") == "shadow":
             replay_line(chk, env, c)
     thorough = chk.tier == "thorough"
-    run_histories(chk, env, [], 1500 if thorough else 120, None, lambda rn, _: sc.random_history(rn, rn.rng.randrange(10, 60)))
+    run_histories(chk, env, [], 1500 if thorough else 160, None, lambda rn, _: sc.random_history(rn, rn.rng.randrange(10, 60)))
     ms = model_shadows(chk, env)
     if ms:
-        run_histories(chk, env, ms, 600 if thorough else 42, None, lambda rn, _: sc.random_history(rn, rn.rng.randrange(20, 60)))
-    real_oracle(chk, env, 120 if thorough else 25)
+        run_histories(chk, env, ms, 700 if thorough else 54, None, lambda rn, _: sc.random_history(rn, rn.rng.randrange(20, 60)))
+    real_oracle(chk, env, 60 if thorough else 30)
+    api_spy(chk, env)
 
 
 def replay_line(chk, env, case):
@@ -135,16 +216,18 @@ def replay_line(chk, env, case):
         nodes.append(sc.Node(nm, k, lv if lv != "-" else "-", int(c0), ps, cs))
     sh = sc.Shadow(nodes, nind, d)
     rn = sc.Runner(env, sh, chk.rng)
+    rn.forced = case.get("picks")     # same accessors / containers / layouts as in the recorded run (absent in old replay files)
     parse = lambda s: [[int(x) for x in r.split(",")] for r in s.split("/")]  # noqa
+    nm = lambda r: names[int(r)] if int(r) < len(names) else sc.UNKNOWN  # noqa  (a rank outside the graph = not a variable)
     for op in ([] if args["ops"] in ("_", "") else args["ops"].split(";")):
         f = op.split(":")
         try:
             if f[0] == "g":
-                rn.op_get(int(f[1]), names[int(f[2])])
+                rn.op_get(int(f[1]), nm(f[2]))
             elif f[0] == "q":
-                rn.op_isset(int(f[1]), names[int(f[2])])
+                rn.op_isset(int(f[1]), nm(f[2]))
             elif f[0] == "s":
-                rn.op_set(int(f[1]), names[int(f[2])], None if f[3] == "none" else parse(f[3]))
+                rn.op_set(int(f[1]), nm(f[2]), None if f[3] == "none" else parse(f[3]))
             elif f[0] == "r":
                 rn.op_revert(int(f[1]))
             elif f[0] == "rp":
@@ -158,26 +241,14 @@ def replay_line(chk, env, case):
             elif f[0] == "cl":
                 rn.op_clear(int(f[1]))
             elif f[0] == "pa":
-                torch = env["torch"]
-                name = names[int(f[2])]
-                rows = parse(f[3])
-                st = rn.states[int(f[1])]
-                status, _ = rn.call(lambda: st.put(name, sc.rows_tensor(torch, rows, sh.level[name]), accumulate=True))
-                rn.record(op, int(f[1]), status)
+                rn.op_put_acc(int(f[1]), names[int(f[2])] if int(f[2]) < len(names) else sc.UNKNOWN, parse(f[3]))
             elif f[0] == "p":
-                torch = env["torch"]
-                name = names[int(f[2])]
-                st = rn.states[int(f[1])]
-                rows_i = [int(x) for x in f[4].split(",")]
-                cols_i = [int(x) for x in f[5].split(",")]
-                vals = [int(x) for x in f[6].split(",")]
-                indices = (rows_i, cols_i) if sh.level[name] == "i" else (cols_i,)
-                status, _ = rn.call(lambda: st.put(name, torch.tensor(vals, dtype=torch.int64), indices=indices, accumulate=f[3] == "1"))
-                rn.record(op, int(f[1]), status)
+                rn.do_put_idx(int(f[1]), names[int(f[2])], f[3] == "1", [int(x) for x in f[4].split(",")],
+                              [int(x) for x in f[5].split(",")], [int(x) for x in f[6].split(",")])
         except Exception as e:  # noqa
             rn.fails.append(f"replay aborted at {op}: {type(e).__name__}: {e}")
             break
-    cj = {"kind": "shadow", "family": case.get("family", "replay"), "line": line}
+    cj = {"kind": "shadow", "family": case.get("family", "replay"), "line": line, "picks": rn.picks}
     for fl in rn.fails[:3]:
         chk.impl_failure(cj, fl)
     out = chk.model([rn.request_line()])
@@ -197,12 +268,14 @@ def replay(chk: core.Check, payload):
         return
     if case.get("kind") == "shadow":
         replay_line(chk, env, case)
+    elif case.get("kind") == "api":
+        run_api_case(chk, env, case)
     elif case.get("kind") == "real":
         import random
         chk.rng = random.Random(f"{PROP}:{case['seed']}")
-        chk.note("real-tensor cases are replayed by re-running the seeded oracle of that model kind")
-        orc = sc.RealOracle(env, case["model"], case["kw"], chk.rng)
-        orc.run(case["steps"])
-        for f in orc.fails[:3]:
+        chk.note("real-tensor cases are replayed by re-running the seeded oracle of that model kind and cohort")
+        orc = run_one_real(chk, env, case["model"], case["kw"], case.get("cohort", "full"),
+                           case.get("rng_key", f"{PROP}:{case['seed']}"), case["steps"], case.get("ambient"))
+        for f in (orc.fails[:3] if orc else []):
             chk.impl_failure(case, f)
         chk.case(("real", case["model"]), sample=case)
